@@ -40,6 +40,7 @@ pub struct Acc {
     pub tainted: u64,
     pub oracle_checks: u64,
     pub internal_errors: Vec<String>,
+    pub tainted_samples: Vec<(String, serde_json::Value)>,
 }
 
 impl Acc {
@@ -61,6 +62,11 @@ impl Acc {
         self.tainted += o.tainted;
         self.oracle_checks += o.oracle_checks;
         self.internal_errors.extend(o.internal_errors);
+        for t in o.tainted_samples {
+            if self.tainted_samples.len() < 5 {
+                self.tainted_samples.push(t);
+            }
+        }
     }
 
     /// Record one executed case.
@@ -86,7 +92,12 @@ impl Acc {
             Err(Stop::Known(k)) => {
                 *self.known_hits.entry((*k).to_string()).or_default() += 1;
             }
-            Err(Stop::Tainted(_)) => self.tainted += 1,
+            Err(Stop::Tainted(m)) => {
+                self.tainted += 1;
+                if self.tainted_samples.len() < 5 {
+                    self.tainted_samples.push((m.clone(), serde_json::to_value(case).unwrap_or_default()));
+                }
+            }
             Err(Stop::Internal(m)) => {
                 if self.internal_errors.len() < 5 {
                     self.internal_errors.push(m.clone());
